@@ -3,7 +3,9 @@ package sim
 import (
 	"fmt"
 	"hash/fnv"
+	"os"
 	"sort"
+	"strconv"
 	"strings"
 )
 
@@ -132,6 +134,15 @@ func Hex(b []byte) string {
 // Indent helper for multi-line details.
 func Indent(s string) string { return "  " + strings.ReplaceAll(s, "\n", "\n  ") }
 
+// traceMax bounds the scheduling decisions kept in the human-readable trace (all are hashed);
+// VERIF_TRACE_MAX raises it for determinism diagnostics.
+var traceMax = func() int {
+	if n, err := strconv.Atoi(os.Getenv("VERIF_TRACE_MAX")); err == nil && n > 0 {
+		return n
+	}
+	return 400
+}()
+
 // Decision records a scheduling decision in the canonical log (hashed; traced up to a bound).
 func (r *R) Decision(actor, what string) {
 	h := r.hash
@@ -144,7 +155,7 @@ func (r *R) Decision(actor, what string) {
 	}
 	r.hash = h
 	r.Steps++
-	if r.traceOn && r.nDecisions < 400 {
+	if r.traceOn && r.nDecisions < traceMax {
 		r.trace = append(r.trace, "  > "+actor+": "+what)
 	}
 	r.nDecisions++
